@@ -11,6 +11,12 @@
 // E3: hand-written hostile referrer manifests of the Notation type (0 / 2 blobs,
 // declared or real sizes over the caps, …) behind a logging GraphTarget: the
 // refusal must come before any Fetch of the blob (and of an oversized manifest).
+// The blob list of a hostile manifest is a dimension of its own (entryKinds):
+// what the entries next to the envelope ARE (the OCI empty-descriptor placeholder,
+// the manifest's own config, a zero-length blob, a blob of another media type, the
+// subject, a descriptor of content that is not in the store, …), where they stand
+// (before / after the envelope), how many there are (2, 3), and how an empty list
+// is written (absent, null, []).
 package main
 
 import (
@@ -1479,6 +1485,54 @@ type hostileCase struct {
 	Real         string `json:"real,omitempty"`            // big-manifest | big-blob | cap-manifest | cap-blob
 	Special      string `json:"special,omitempty"`         // no-subject-layer-is-s1 | subject-s2-layer-is-s1
 	BlobMT       string `json:"blob_media_type,omitempty"` // media type the blobs declare; "" = JWS
+	// Entries, when set, spells out the layers/blobs list entry by entry (kinds of entryKinds, in list order)
+	Entries []string `json:"entries,omitempty"`
+	// ListForm, for a manifest without blobs: how the empty layers/blobs list is written (absent | null | empty)
+	ListForm string `json:"list_form,omitempty"`
+}
+
+const (
+	mtOCIEmpty   = "application/vnd.oci.empty.v1+json" // OCI image-spec v1.1 "empty descriptor": this media type, the digest of "{}", size 2
+	mtImageLayer = "application/vnd.oci.image.layer.v1.tar"
+)
+
+// entryKinds: what an entry of a hostile manifest's layers/blobs list may be, next to one ordinary JWS envelope
+// ("envelope"). Hand-written labels:
+//   - judged: the entry is a blob of its own, so a list of the envelope and such an entry does not carry
+//     exactly one blob (the referrer must be refused);
+//   - ordinary: the entry's bytes are stored, non-empty and shared with nothing else in the store, so "its
+//     content was read completely before the refusal" can be told from the read log by digest.
+//
+// The two kinds that name the ENVELOPE'S OWN bytes a second time are not judged: "does not carry exactly one
+// blob" can be read per entry or per blob there.
+var entryKinds = []struct {
+	name             string
+	judged, ordinary bool
+}{
+	{"envelope-cose", true, true},           // a second envelope, of the other envelope media type
+	{"other-media-type", true, true},        // application/octet-stream next to the JWS envelope (mixed media types)
+	{"image-layer", true, true},             // an image layer tar next to the envelope
+	{"oci-empty", true, false},              // the OCI v1.1 empty descriptor (its bytes "{}" are in every layout that holds a signature: the config)
+	{"oci-empty-inline-data", true, false},  // the same with the content inlined in the descriptor's data field
+	{"config-again", true, false},           // the manifest's own config descriptor listed as a layer/blob
+	{"zero-length", true, false},            // a stored blob of 0 bytes
+	{"subject-itself", true, false},         // the subject manifest S1 listed as a layer/blob
+	{"absent-from-store", true, false},      // a descriptor whose content is not in the store
+	{"annotated-placeholder", true, true},   // an ordinary stored blob whose descriptor carries annotations calling it a placeholder
+	{"same-entry-again", false, false},      // the envelope's descriptor a second time (not judged)
+	{"same-bytes-other-type", false, false}, // the envelope's digest and size under the other envelope media type (not judged)
+}
+
+func entryKind(name string) (judged, ordinary, ok bool) {
+	if name == "envelope" {
+		return true, true, true
+	}
+	for _, k := range entryKinds {
+		if k.name == name {
+			return k.judged, k.ordinary, true
+		}
+	}
+	return false, false, false
 }
 
 // media types a hostile blob may declare besides the two envelope types
@@ -1530,6 +1584,27 @@ func hostileCases() []hostileCase {
 			}
 		}
 	}
+	// the composition of the blob list: the envelope and one entry of every kind, in both positions, in both
+	// manifest formats, on both stores; three entries (kind, envelope, kind) on the memory store
+	for _, store := range []string{"memory", "disk"} {
+		for _, format := range []string{"image", "legacy"} {
+			for _, k := range entryKinds {
+				lists := [][]string{{"envelope", k.name}, {k.name, "envelope"}}
+				if store == "memory" {
+					lists = append(lists, []string{k.name, "envelope", k.name})
+				}
+				for _, es := range lists {
+					cs = append(cs, hostileCase{Kind: "hostile", Store: store, Format: format, NBlobs: len(es), DeclManifest: "true", DeclBlob: "true", Entries: es,
+						Name: format + "-entries-" + strings.Join(es, "+")})
+				}
+			}
+		}
+	}
+	// no blob at all, the empty list written in the other ways (the cases above write layers:[] and omit blobs)
+	for _, f := range []struct{ format, form string }{{"image", "null"}, {"image", "absent"}, {"legacy", "null"}, {"legacy", "empty"}} {
+		cs = append(cs, hostileCase{Kind: "hostile", Store: "memory", Format: f.format, NBlobs: 0, DeclManifest: "true", DeclBlob: "true", ListForm: f.form,
+			Name: f.format + "-0blobs-list-" + f.form})
+	}
 	return cs
 }
 
@@ -1567,7 +1642,74 @@ func runHostile(c hostileCase) (vs []viol, outcome string, recorded []string, ev
 	}
 	var blobs []ocispec.Descriptor
 	var blobBytes [][]byte
-	for k := 0; k < c.NBlobs; k++ {
+	var readJudged []bool // per entry: reading its content completely before the refusal can be told from the read log
+	oneBlobTwice := false // some entry names the envelope's own bytes a second time: not judged
+	if len(c.Entries) > 0 {
+		if c.NBlobs != len(c.Entries) {
+			return nil, "", nil, 0, fmt.Errorf("case %s: nblobs %d, %d entries", c.Name, c.NBlobs, len(c.Entries))
+		}
+		envBytes := []byte("hostile-env-0-" + c.Name)
+		for k, e := range c.Entries {
+			judged, ordinary, ok := entryKind(e)
+			if !ok {
+				return nil, "", nil, 0, fmt.Errorf("case %s: unknown entry kind %q", c.Name, e)
+			}
+			if !judged {
+				oneBlobTwice = true
+			}
+			b := []byte(fmt.Sprintf("hostile-entry-%d-%s-%s", k, e, c.Name))
+			var d ocispec.Descriptor
+			store := true
+			switch e {
+			case "envelope":
+				b = envBytes
+				d = descOf(mtJWS, b)
+			case "envelope-cose":
+				d = descOf(mtCOSE, b)
+			case "other-media-type":
+				d = descOf("application/octet-stream", b)
+			case "image-layer":
+				d = descOf(mtImageLayer, b)
+			case "oci-empty":
+				b = emptyConfig
+				d = descOf(mtOCIEmpty, b)
+			case "oci-empty-inline-data":
+				b = emptyConfig
+				d = descOf(mtOCIEmpty, b)
+				d.Data = b
+			case "config-again":
+				b = emptyConfig
+				d = descOf(typeNotation, b)
+			case "zero-length":
+				b = []byte{}
+				d = descOf(mtJWS, b)
+			case "subject-itself":
+				b, store = nil, false
+				d = subj[0]
+			case "absent-from-store":
+				store = false
+				d = descOf(mtJWS, b)
+			case "annotated-placeholder":
+				d = descOf(mtJWS, b)
+				d.Annotations = map[string]string{"org.example.placeholder": "true", "org.opencontainers.image.title": "placeholder"}
+			case "same-entry-again":
+				b = envBytes
+				d = descOf(mtJWS, b)
+			case "same-bytes-other-type":
+				b = envBytes
+				d = descOf(mtCOSE, b)
+			}
+			if store {
+				if err := pushRaw(inner, ocispec.Descriptor{MediaType: d.MediaType, Digest: d.Digest, Size: d.Size}, b); err != nil {
+					return nil, "", nil, 0, err
+				}
+			}
+			blobs = append(blobs, d)
+			blobBytes = append(blobBytes, b)
+			readJudged = append(readJudged, ordinary)
+		}
+	}
+	for k := 0; k < c.NBlobs && len(c.Entries) == 0; k++ {
 		b := []byte(fmt.Sprintf("hostile-env-%d-%s", k, c.Name))
 		switch c.Real {
 		case "big-blob":
@@ -1584,6 +1726,7 @@ func runHostile(c hostileCase) (vs []viol, outcome string, recorded []string, ev
 		}
 		blobs = append(blobs, d)
 		blobBytes = append(blobBytes, b)
+		readJudged = append(readJudged, true)
 	}
 	subject := &subj[0]
 	switch c.Special {
@@ -1618,6 +1761,28 @@ func runHostile(c hostileCase) (vs []viol, outcome string, recorded []string, ev
 		case "index":
 			mt = mtIndex
 			mb, _ = json.Marshal(indexManifest{SchemaVersion: 2, MediaType: mtIndex, ArtifactType: typeNotation, Manifests: []ocispec.Descriptor{}, Subject: subject})
+		}
+		if c.ListForm != "" {
+			// the empty list of blobs written another way (object keys come out sorted: deterministic bytes)
+			var obj map[string]json.RawMessage
+			if err := json.Unmarshal(mb, &obj); err != nil {
+				return nil, ocispec.Descriptor{}, err
+			}
+			key := "layers"
+			if c.Format == "legacy" {
+				key = "blobs"
+			}
+			switch c.ListForm {
+			case "absent":
+				delete(obj, key)
+			case "null":
+				obj[key] = json.RawMessage("null")
+			case "empty":
+				obj[key] = json.RawMessage("[]")
+			default:
+				return nil, ocispec.Descriptor{}, fmt.Errorf("unknown list form %q", c.ListForm)
+			}
+			mb, _ = json.Marshal(obj)
 		}
 		return mb, descOf(mt, mb), nil
 	}
@@ -1674,7 +1839,7 @@ func runHostile(c hostileCase) (vs []viol, outcome string, recorded []string, ev
 	repo := registry.NewRepository(lt)
 
 	manifestOver := c.DeclManifest == "over" || c.Real == "big-manifest"
-	mustRefuse := c.NBlobs != 1 || manifestOver || c.DeclBlob == "over" || c.Real == "big-blob" || c.Format == "index"
+	mustRefuse := (c.NBlobs != 1 && !oneBlobTwice) || manifestOver || c.DeclBlob == "over" || c.Real == "big-blob" || c.Format == "index"
 	atCap := c.Real == "cap-manifest" || c.Real == "cap-blob"
 
 	judgeFetch := func(via string, d ocispec.Descriptor) string {
@@ -1699,7 +1864,7 @@ func runHostile(c hostileCase) (vs []viol, outcome string, recorded []string, ev
 			for bi, bl := range blobs {
 				n, real := lt.bytesRead(bl.Digest), int64(len(blobBytes[bi]))
 				switch {
-				case n >= real && (c.NBlobs != 1 || c.Real == "big-blob"):
+				case n >= real && readJudged[bi] && (c.NBlobs != 1 || c.Real == "big-blob"):
 					add("hostile/blob-read-before-refusal:"+k, "blob %s (declared %d bytes, real %d) was read completely (%d bytes, %d fetches); result error: %v", bl.Digest, bl.Size, real, n, lt.count(bl.Digest), err)
 					bad = true
 				case n > 0 || lt.count(bl.Digest) > 0:
@@ -1725,6 +1890,13 @@ func runHostile(c hostileCase) (vs []viol, outcome string, recorded []string, ev
 			return "hostile: refused before the content was used"
 		case c.Special != "":
 			return "hostile: special (fetch not judged)"
+		case oneBlobTwice:
+			// the list has two or three entries and they name one blob: whether that is "exactly one blob" is not
+			// fixed by the statement
+			if err != nil {
+				return "hostile: entries that name the envelope's bytes twice: refused (not judged)"
+			}
+			return "hostile: entries that name the envelope's bytes twice: served (not judged)"
 		case atCap:
 			if err != nil {
 				return "hostile: exactly at the cap refused (not judged)"
@@ -1783,6 +1955,8 @@ func runHostile(c hostileCase) (vs []viol, outcome string, recorded []string, ev
 		}
 	case c.Format == "index":
 		// whether an image index of the Notation type is listed is not fixed by the statement
+	case oneBlobTwice && !found:
+		// not judged (see judgeFetch)
 	case c.Real == "big-manifest":
 		if found && lerr == nil {
 			add("hostile/accepted:"+c.Name+":listing", "ListSignatures yields the %d byte manifest", md.Size)
@@ -1849,6 +2023,22 @@ func exploreHostile(r *hx.Run) {
 	})
 	col.flush(r)
 	r.Extra["hostile_cases"] = len(cs)
+	nEntries, nForms := 0, 0
+	var kinds []string
+	for _, k := range entryKinds {
+		kinds = append(kinds, k.name)
+	}
+	for _, c := range cs {
+		if len(c.Entries) > 0 {
+			nEntries++
+		}
+		if c.ListForm != "" {
+			nForms++
+		}
+	}
+	r.Extra["hostile_entry_kinds"] = kinds
+	r.Extra["hostile_blob_list_composition_cases"] = nEntries
+	r.Extra["hostile_empty_list_form_cases"] = nForms
 	r.Extra["hostile_controls_accepted"] = controls
 	r.Extra["hostile_refused_before_fetch"] = refused
 	if controls == 0 && r.Violations() == 0 {
@@ -1910,7 +2100,7 @@ func replay(r *hx.Run) {
 
 func main() {
 	r := hx.New("C19")
-	r.Rule = "every sequence of length 0..d over the 11 operations is replayed on a fresh real store and judged in its final state (so every state after every operation is judged once per history reaching it); canonical state = count per operation kind (the multiset of manifests per subject; exact for content-addressed stores, whose content does not depend on the push order - confirmed by running all orders up to depth d); the same histories to a smaller depth are run observed (full check on the same repository value before the first and after every operation: list - push - list); beyond d (frontier): every combination of 0, 1 or 2 manifests per operation kind up to 12 operations (quick: 6) in two fixed orders, which is NOT all orders; non-trivial = distinct (store kind, canonical state) with at least one signature and at least one other manifest or second signature, plus every hostile manifest case"
+	r.Rule = "every sequence of length 0..d over the 11 operations is replayed on a fresh real store and judged in its final state (so every state after every operation is judged once per history reaching it); canonical state = count per operation kind (the multiset of manifests per subject; exact for content-addressed stores, whose content does not depend on the push order - confirmed by running all orders up to depth d); the same histories to a smaller depth are run observed (full check on the same repository value before the first and after every operation: list - push - list); beyond d (frontier): every combination of 0, 1 or 2 manifests per operation kind up to 12 operations (quick: 6) in two fixed orders, which is NOT all orders; non-trivial = distinct (store kind, canonical state) with at least one signature and at least one other manifest or second signature, plus every hostile manifest case; hostile manifests (E3) = blob count 0/1/2 x declared manifest size x declared blob size x format x store, really oversized objects, blobs of other media types, and the COMPOSITION of the blob list: one JWS envelope together with one entry of every kind of entry_kinds (a second envelope of the other type, octet-stream, image layer, the OCI v1.1 empty descriptor with and without inline data, the manifest's own config, a zero-length blob, the subject itself, a descriptor of content absent from the store, an ordinary blob annotated as a placeholder) before and after the envelope in image and legacy manifests on the memory and the disk store, lists of three (kind, envelope, kind), and the empty list written as [] / null / absent: every such referrer with two or more distinct blobs or none must be refused by FetchSignatureBlob (handed the descriptor directly and as listed) without an ordinary entry's content having been read completely"
 	r.Assumptions = []string{
 		"envelopes are opaque distinct byte strings (the registry layer does not parse them)",
 		"size caps 4 MiB (manifest) and 32 MiB (blob) are written into the harness from repository.go",
@@ -1922,6 +2112,8 @@ func main() {
 		"a push whose creation time annotation is hand-labelled 'not RFC 3339' may be refused (oras-go refuses to pack it): recorded, not judged; if accepted, the value must round-trip like every other",
 		"descriptors with equal media type, digest and size denote the same artifact: listing by any of them (other annotations, urls, artifact type, platform, data; Resolve by tag / by digest) must yield the same signatures",
 		"a layout that oras-go refuses to open (referrer whose subject has a real digest and a wrong size) is recorded, not judged",
+		"'carries exactly one blob' is counted over the entries of layers/blobs whatever an entry is (placeholder, config, empty, absent, foreign media type): hand-labelled per entry kind; a list whose entries all name the envelope's own bytes (same descriptor again, same digest under the other envelope media type) is recorded, not judged",
+		"reads before a refusal are judged only for entries whose bytes are stored, non-empty and shared with no other object of the store (the read log is by digest; '{}' is also the config, the subject is also listed)",
 	}
 	if r.Replay != "" {
 		replay(r)
